@@ -238,6 +238,7 @@ func checkC12(c *Ctx) {
 	// tag slice never goes back to a pool (shared with C13 O8)
 	c.checkPublishedNotRecycled("O7 published-not-recycled")
 	c.checkBucketOwnTemplate("O4b bucket-own-template")
+	c.checkPooledSlicesDisjoint("O7 pooled-slices-disjoint")
 	c.checkOwnResourcePool("O8 own-resource-pool")
 }
 
@@ -872,4 +873,85 @@ func (c *Ctx) checkBucketOwnTemplate(rule string) {
 	if okAll {
 		c.ok(rule, key, fn.Pos(), "each bucket handle gets a metric template allocated in its own iteration")
 	}
+}
+
+// checkPooledSlicesDisjoint (O7): every slice the resource pools hand out owns its whole capacity: the
+// allocator literals of newResourcePool return freshly made slices (or three-index slices whose capacity
+// is capped). A window cut out of a shared block with a two-index slice keeps the capacity to the end of
+// the block: appending an 11th tag does not reallocate but writes into the next pooled slice, so two
+// tag sets (or the common tags and a metric's tags) overwrite each other after they were sized.
+func (c *Ctx) checkPooledSlicesDisjoint(rule string) {
+	fn := c.fn("m3", "", "newResourcePool")
+	if fn == nil {
+		c.missing(rule, "m3.newResourcePool")
+		return
+	}
+	key := c.fnKey(fn)
+	c.sawFunc(key)
+	n := 0
+	okAll := true
+	for _, lit := range fn.AnonFuncs {
+		rets := returnsOf(lit)
+		isSlice := false
+		for _, r := range rets {
+			for _, va := range resultValues(r, 0) {
+				v := stripConv(va.Val)
+				if _, ok := v.Type().Underlying().(*types.Slice); !ok {
+					continue
+				}
+				isSlice = true
+				var bad func(v ssa.Value, d int) string
+				bad = func(v ssa.Value, d int) string {
+					v = stripConv(v)
+					if d == 0 {
+						return "origin not traced"
+					}
+					switch x := v.(type) {
+					case *ssa.MakeSlice:
+						return ""
+					case *ssa.Slice:
+						if x.Max != nil {
+							return "" // capacity capped
+						}
+						if al, isAl := x.X.(*ssa.Alloc); isAl && al.Parent() == lit {
+							return "" // a literal of the allocator itself
+						}
+						return "a two-index slice of storage shared between the pooled slices (its capacity runs to the end of that storage)"
+					case *ssa.Phi:
+						for _, e := range x.Edges {
+							if w := bad(e, d-1); w != "" {
+								return w
+							}
+						}
+						return ""
+					case *ssa.UnOp:
+						if x.Op == token.MUL {
+							if al, isAl := x.X.(*ssa.Alloc); isAl && al.Referrers() != nil {
+								for _, rr := range *al.Referrers() {
+									if st, isSt := rr.(*ssa.Store); isSt && st.Addr == ssa.Value(al) {
+										if w := bad(st.Val, d-1); w != "" {
+											return w
+										}
+									}
+								}
+								return ""
+							}
+						}
+					}
+					return fmt.Sprintf("not a freshly made slice (%T)", v)
+				}
+				if w := bad(v, 6); w != "" {
+					okAll = false
+					c.bad(rule, c.fnKey(lit), va.At.Pos(), "a pool allocator hands out "+w+": an append beyond the slice's intended size does not reallocate but overwrites the neighbouring pooled slice - tags of another metric (or the common tags) change after the sizes were computed", c.describe(va.At))
+				}
+			}
+		}
+		if isSlice {
+			n++
+		}
+	}
+	if okAll {
+		c.ok(rule, key, fn.Pos(), fmt.Sprintf("the %d slice allocators of the resource pool return freshly made (or capacity-capped) slices", n))
+	}
+	c.floor(rule, n, 2)
 }
